@@ -245,7 +245,7 @@ class Reporter:
                         pass
                 return True
         # at most MAXPER reports (and replay files) per violation class; the rest are counted
-        cls = identity.split(" ops=")[0].split(" id=")[0]
+        cls = " ".join(identity.split()[:2])
         self.per_class[cls] = self.per_class.get(cls, 0) + 1
         if self.per_class[cls] > self.MAXPER:
             self.suppressed += 1
